@@ -609,6 +609,18 @@ func (ex *Exec) fireOnCallTyped(fr *Frame, st *State, key string, args []Val, pt
 				t = ptypes[i]
 			}
 			env.vars[fmt.Sprintf("arg%d", i)] = TV{a, t}
+			// the address of a struct field (receiver of a method of an embedded
+			// value such as a sync.Map): argN_base is the object, argN_field the
+			// field name
+			if os.Getenv("GV_DEBUG_ONCALL") != "" {
+				fmt.Fprintf(os.Stderr, "oncall %s arg%d %T %v\n", key, i, a, a)
+			}
+			if hp, ok := a.(HeapPtr); ok && len(hp.Path) > 0 {
+				if _, name := typeAtPath(hp.Root, hp.Path); name != "" {
+					env.vars[fmt.Sprintf("arg%d_base", i)] = TV{SV{hp.Base}, nil}
+					env.vars[fmt.Sprintf("arg%d_field", i)] = TV{SV{ex.strLit(name)}, types.Typ[types.String]}
+				}
+			}
 		}
 		for g, v := range st.ghost {
 			env.vars[g] = TV{v, nil}
